@@ -63,6 +63,9 @@ def plan(tier: str, seed: int) -> list[dict]:
     for f in FORMATS:
         for r in range(reps):
             cases.append({"fmt": f, "r": r, "weight": 3})
+    for r in range(6 if tier == "quick" else 60):
+        # hosted sparse extents whose grain directory itself lies beyond 2^32 sectors
+        cases.append({"fmt": f"vmdk-hosted-gd{r % 6}", "r": r, "weight": 3})
     for r in range(1 if tier == "quick" else 6):
         cases.append({"fmt": "qcow2-many-open", "r": r, "weight": 6})
     for r in range(2 if tier == "quick" else 20):
@@ -278,7 +281,7 @@ def build(fmt: str, rng):
         from dissect.hypervisor.disk.vmdk import VMDK
 
         dense = None
-        if fmt == "vmdk-hosted":
+        if fmt.startswith("vmdk-hosted"):
             grain = rng.choice([2048, 128])
             ngte = 512
             cap = (1 << 37) - rng.randrange(0, grain) if grain == 2048 else (1 << 33) + rng.randrange(1, 1 << 20)
@@ -287,8 +290,14 @@ def build(fmt: str, rng):
             st = {g: rng.choice("AAZ") for g in hot_g}
             for g in range(2, 200):
                 st[g] = "A"
+            # the 64-bit directory offset itself beyond 2^32 sectors in half of the cases, also at sectors whose low half is all
+            # ones (only the full 64-bit all-ones value means "directory named by the footer")
+            gd_at = 0
+            if fmt.startswith("vmdk-hosted-gd"):
+                gd_at = [0xFFFFFFFF, 0x1FFFFFFFF, 0x100000000, 0x2FFFFFFFF0, 0xFFFFFFFE, 0x7FFFFFFFFF][int(fmt[14:]) % 6]
             sf, layer, meta = wvmdk.build_hosted(rng, capacity=cap, grain=grain, ngte=ngte, states=st, placement="shuffle", tag=tag,
-                                                 far_sector=0xFFFFFFFF - 400 * grain)
+                                                 far_sector=0xFFFFFFFF - 400 * grain, gd_at=gd_at)
+            gd_note = hex(meta["gd_sector"])
             hot = [g * grain * SECTOR for g in sorted(hot_g)]
             dense = (2 * grain * SECTOR, 198 * grain * SECTOR)
         elif fmt == "vmdk-sesparse":
@@ -315,6 +324,8 @@ def build(fmt: str, rng):
             hot = [0, 1 << 32, 1 << 41, cap * SECTOR - 5000]
         info = {"size": meta["size"], "metadata_bytes": meta["metadata_bytes"], "unit": grain * SECTOR if fmt != "vmdk-flat" else SECTOR,
                 "hot": hot, "max_off": sf.end, "compressed_unit": compressed_unit, "dense": dense}
+        if fmt.startswith("vmdk-hosted"):
+            info["gd_sector"] = gd_note
         return (lambda fh: VMDK(fh)), sf, Model(meta["size"], [layer]), info
     if fmt == "vhd-fixed":
         from dissect.hypervisor.disk.vhd import VHD
@@ -589,6 +600,8 @@ def run(case: dict, ctx) -> dict:
     ratio = total / budget
     res["sets"]["budget_use_deciles"] = [f"{case['fmt']}:{int(ratio * 10) / 10}"]
     res["sets"]["virtual_sizes_tib"] = [round(size / TIB, 2)]
+    if "gd_sector" in info:
+        res["sets"]["vmdk_grain_directory_sector"] = [info["gd_sector"]]
     res["sets"]["max_file_offset_touched_log2"] = [f"{case['fmt']}:2^{max(fh.max_off, 1).bit_length() - 1}"]
     res["nontrivial"] = size >= TIB or fh.max_off > (1 << 32)
     while TMPDIRS:
